@@ -358,3 +358,98 @@ pub fn mounts(spec: &Value, w: &mut dyn std::io::Write) -> u64 {
     }
     n
 }
+
+// ------------------------------------------------------------------------------------------------
+// C17: arbitrary directory slot contents
+
+/// one spec line: {"id", "base": vol, "dirs": [[ [32 bytes] ... ] ...]}: every element of `dirs` is written over the
+/// beginning of the root directory of a fresh copy of the base volume, which is then mounted and listed
+pub fn dirs(spec: &Value, w: &mut dyn std::io::Write) -> u64 {
+    use crate::decode::slot_json;
+    let id = spec.get("id").and_then(Value::as_str).unwrap_or("").to_string();
+    let Ok(base) = make_volume(&spec["base"]) else { return 0 };
+    let Some(g) = Geo::parse(&base) else { return 0 };
+    let root_off = if g.ft == 32 { g.clu_off(g.root_cluster) } else { g.root_off() };
+    let cap = if g.ft == 32 { g.cs() / 32 } else { g.root_entries };
+    let mut n = 0u64;
+    for d in spec.get("dirs").and_then(Value::as_array).cloned().unwrap_or_default() {
+        let slots: Vec<Vec<u8>> = d
+            .as_array()
+            .map(|a| a.iter().map(|s| s.as_array().map(|b| b.iter().map(|x| x.as_u64().unwrap_or(0) as u8).collect()).unwrap_or_default()).collect())
+            .unwrap_or_default();
+        if slots.len() as u64 > cap {
+            continue;
+        }
+        let mut img = base.clone();
+        let mut sj = Vec::new();
+        for (i, s) in slots.iter().enumerate() {
+            let mut b = s.clone();
+            b.resize(32, 0);
+            img.write_at(root_off + i as u64 * 32, &b);
+            if b[0] == 0 {
+                break; // END marker: what follows is not part of the directory
+            }
+            sj.push(slot_json(&b, g.ft));
+        }
+        n += 1;
+        let dev = SimDevice::new(img);
+        dev.0.borrow_mut().budget = 100_000;
+        let r = catch_unwind(AssertUnwindSafe(|| -> Value {
+            let fs = match FileSystem::new(dev.clone(), opts(true)) {
+                Ok(fs) => fs,
+                Err(e) => return json!({"k":"mounterr","err":err_json(&e)}),
+            };
+            let mut ents = Vec::new();
+            let mut res = json!({"k":"ok"});
+            for r in fs.root_dir().iter() {
+                match r {
+                    Ok(e) => {
+                        // every accessor is called
+                        let sn: Vec<u8> = e.short_file_name_as_bytes().to_vec();
+                        let ln: Vec<u16> = e.long_file_name_as_ucs2_units().map(|u| u.to_vec()).unwrap_or_default();
+                        let c = e.created();
+                        let m = e.modified();
+                        let a = e.accessed();
+                        let mut j = json!({"sn": sn, "ln": ln, "at": e.attributes().bits(), "sz": e.len(), "d": e.is_dir(), "f": e.is_file(),
+                            "ct": [c.date.year, c.date.month, c.date.day, c.time.hour, c.time.min, c.time.sec, c.time.millis],
+                            "mt": [m.date.year, m.date.month, m.date.day, m.time.hour, m.time.min, m.time.sec, m.time.millis],
+                            "ad": [a.year, a.month, a.day]});
+                        #[cfg(feature = "has_alloc")]
+                        {
+                            j["fn"] = json!(crate::exec::units(&e.file_name()));
+                            j["sfn"] = json!(crate::exec::units(&e.short_file_name()));
+                        }
+                        ents.push(j);
+                        if ents.len() > 600 {
+                            res = json!({"k":"hang"});
+                            break;
+                        }
+                    }
+                    Err(e) => {
+                        res = err_json(&e);
+                        break;
+                    }
+                }
+            }
+            std::mem::forget(fs);
+            res["ents"] = json!(ents);
+            res
+        }));
+        let mut res = match r {
+            Ok(v) => v,
+            Err(_) => json!({"k":"panic","msg":panic_msg()}),
+        };
+        if dev.0.borrow().budget_tripped {
+            res = json!({"k":"hang"});
+        }
+        let mut m = Map::new();
+        m.insert("op".into(), json!("dirdec"));
+        m.insert("pid".into(), json!(id));
+        m.insert("i".into(), json!(n));
+        m.insert("feat".into(), json!(crate::FEATURE));
+        m.insert("sl".into(), json!(sj));
+        m.insert("r".into(), res);
+        emit(w, m);
+    }
+    n
+}
